@@ -125,7 +125,12 @@ impl BinaryDeserializer for FieldPosition {
     fn deserialize(context: &mut DeserializationContext<'_>) -> Result<Self> {
         let byte = context.read_i8()?;
         if byte < 0 {
-            Ok(FieldPosition::new(0, (-byte) as u8))
+            match byte.checked_neg() {
+                Some(position) => Ok(FieldPosition::new(0, position as u8)),
+                None => Err(crate::Error::DeserializationFailure(
+                    "Failed to deserialize FieldPosition: invalid position".to_string(),
+                )),
+            }
         } else {
             Ok(FieldPosition::new(byte as u8, 0))
         }
